@@ -15,3 +15,11 @@ claim("C04",
       "re-resolves a modified wall clock filters against MIN_UTC/MAX_UTC; FixedOffset accepts exactly (-86400, 86400). Value-level identities of the round trips are not decided.",
       "Trusted: MIR and type facts of rustc nightly; foreign TimeZone impls are outside the program analysed.",
       "DESIGN.md 5/C04")
+claim("C19",
+      "finite-map extraction (def-use terms of MIR folded over the finite argument domains), table comparison, narrowing-cast rule",
+      "Decides C19 on the whole finite domain without executing the crate: every Weekday/Month function as a 7/12/49-entry map (cyclic-group laws, inverse "
+      "numbering, agreeing TryFrom/FromPrimitive tables that reject everything else, no narrowing cast before the table), every WeekdaySet operation over all "
+      "128 x 128 sets and 128 x 7 (set, day) pairs against set algebra including first/last/len/split_at, one iterator step from either end for all 128 x 7 states, "
+      "the 7-bit invariant, and writer name tables against the scanners' tables. Text parsing of arbitrary strings is decided only as far as the tables.",
+      "Trusted: term reconstruction and constant folding in analysis/sym.py + finmap.py (std bit-count helpers modelled); MIR from rustc nightly.",
+      "DESIGN.md 5/C19")
